@@ -198,3 +198,28 @@ Definition C04_single_stmt : Prop :=
                s = 16 + 2 * spec_bonus_at cfg (rp hs) (cs hs) i) /\
     (forall j, (N.to_nat j < length (cs hs))%nat -> nth (N.to_nat j) (nh cfg (rp hs) (cs hs)) 0 = c ->
                16 + 2 * spec_bonus_at cfg (rp hs) (cs hs) j <= s).
+
+(* ---- further statements (second round) ------------------------------------------------------------ *)
+(* C10: every entry point is total on well-formed input (no Panicked outcome), for every algorithm *)
+Definition C10_total_stmt : Prop :=
+  forall cfg a hs ns k, needle_ok cfg (rp ns) (cs ns) = true -> run cfg a hs ns <> Panicked k.
+
+(* C04: the optimal matcher's score is never below (in fact equals) the documented two-matrix
+   recurrence evaluated naively on the full matrix, whenever the matrix path is taken *)
+Definition C04_recurrence_stmt : Prop :=
+  forall cfg hs ns s idx r, prefer_prefix cfg = false -> bonus_bounded cfg ->
+    needle_ok cfg (rp ns) (cs ns) = true -> ~ known_K1 hs ns ->
+    (2 <= length (cs ns))%nat -> (length (cs ns) < length (cs hs))%nat ->
+    slab_alloc_ok (rp hs) (lenN (cs hs)) (lenN (cs ns)) = true ->
+    run cfg Fuzzy hs ns = Match s idx ->
+    naive_score cfg (rp hs) (cs hs) (cs ns) = Some r -> r <= s.
+
+(* C04: prefix preference never lowers a score and raises it by at most the prefix bonus (8) *)
+Definition with_prefix (cfg : config) (b : bool) : config :=
+  {| ignore_case := ignore_case cfg; normalize_on := normalize_on cfg; prefer_prefix := b; delims := delims cfg;
+     bonus_white := bonus_white cfg; bonus_delim := bonus_delim cfg; init_class := init_class cfg |}.
+Definition C04_prefix_stmt : Prop :=
+  forall cfg a hs ns s0 i0 s1 i1, bonus_bounded cfg -> lenN (cs ns) <= 2400 ->
+    needle_ok cfg (rp ns) (cs ns) = true ->
+    run (with_prefix cfg false) a hs ns = Match s0 i0 -> run (with_prefix cfg true) a hs ns = Match s1 i1 ->
+    s0 <= s1 /\ s1 <= s0 + 8.
